@@ -149,7 +149,7 @@ Spec == Init /\ [][Next]_vars
 
 ---------------------------------------------------------------------------
 (* Refinement of RESP.tla, for EVERY delivery schedule.                    *)
-Strict == DecStream(stream)
+Strict == LET d == DecStream(stream) IN [d EXCEPT !.vals = LenientSeq(d.vals)]   \* (a null array is handed out as an empty array)
 Vals(o) == SelectSeq(o, LAMBDA x : x.t \notin {"eof", "error"})
 
 RECURSIVE IsPrefixOf(_, _, _)
